@@ -29,6 +29,7 @@ ASSUMPTIONS = ["model = contract in pyairtouch/api.py + vendor PDFs (refmodel.py
                "first answer of an error episode: undecided"]
 REQUIRED_OBS = ["frames_compared", "ac_values_seen", "zone_values_seen", "timer_frames",
                 "error_episodes", "version_frames", "ia_fan_values"]
+SOAK = True   # also judged by the whole-run monitors of the soak sessions (vf/soak.py)
 BUDGET = {"quick": 100, "thorough": 1500}
 
 
@@ -179,6 +180,10 @@ def make_frame(gen, rnd, w, combo, obs):
     if kind == "zone":
         ids = rnd.sample(zone_ids + [rnd.choice([14, 15])], rnd.randint(1, len(zone_ids) + 1))
         recs = [rand_zone(gen, rnd, z) for z in ids]
+        for rec in recs:   # the console's own state follows what it reports
+            for z in inst["zones"]:
+                if z["id"] == rec.get("group", rec.get("zone")):
+                    z["status"] = rec
         obs["zone_values_seen"] = obs.get("zone_values_seen", 0) + len(recs)
         if gen == 4:
             return con.f_std(0x2B, b"".join(R.b4_group_status_record(r) for r in recs))
